@@ -85,6 +85,9 @@ var lcReasons = map[string][]string{
 	// the same with nothing buffered and a heartbeat that is further away than the transport's close timeout: the
 	// close the application asked for completes by that timeout and is reported as such
 	"appCloseNoPollEmpty": {"forced close"},
+	// Close(false) with packets still buffered (no poll pending / the writer still busy) and a client that goes on
+	// polling and reading: the buffer drains to it and the close the application asked for completes
+	"appCloseBuffered": {"forced close"},
 	// a write of the server fails (broken pipe / the peer stopped the receiving side of its stream) before its
 	// reader has noticed anything
 	"writeFail": {"transport error", "transport close"},
@@ -93,7 +96,7 @@ var lcReasons = map[string][]string{
 	"stall": {"ping timeout"},
 }
 
-var lcCauses = []string{"closePacket", "drop", "overlap", "wrongHeartbeat", "garbage", "silence", "appClose", "appCloseNow", "appCloseNoPoll", "appCloseNoPoll", "writeFail", "stall"}
+var lcCauses = []string{"closePacket", "drop", "overlap", "wrongHeartbeat", "garbage", "silence", "appClose", "appCloseNow", "appCloseNoPoll", "appCloseNoPoll", "appCloseBuffered", "writeFail", "stall"}
 
 type lcSess struct {
 	idx               int
@@ -201,7 +204,7 @@ func genLC(rt *rapid.T, gates bool, known map[string]bool, col *Collector) []lcS
 			}
 			if k == "gateHandshake" {
 				st.Car = rapid.SampledFrom([]string{"websocket", "webtransport"}).Draw(rt, l+".gcar")
-				st.Cause = rapid.SampledFrom([]string{"drop", "dropInOpenFlush", "dropInOpenFlush", "none"}).Draw(rt, l+".gcause")
+				st.Cause = rapid.SampledFrom([]string{"drop", "dropInOpenFlush", "dropInOpenFlush", "none", "dropHeldInOnClose", "dropHeldInOnClose"}).Draw(rt, l+".gcause")
 			}
 			st.Rev = 4
 			if st.Car != "webtransport" && rapid.IntRange(0, 3).Draw(rt, l+".rev3") == 0 {
@@ -477,6 +480,19 @@ func (lw *lcWorld) causeFn(s *lcSess, cause string) func() {
 			}
 			s.sr.Sock.Close(false)
 		}
+	case "appCloseBuffered":
+		if s.pc != nil && s.pc.Poll != nil {
+			// use up the pending poll (done here, by the caller's goroutine)
+			lw.w.AppSend(s.sr, msgT("answer the pending poll"), nil, false, 0)
+			Settle()
+			s.pc.Pump()
+		}
+		return func() {
+			lw.stats["close-with-buffered-data-and-a-client-that-keeps-reading"] = true
+			lw.w.AppSend(s.sr, msgT("buffered 1"), nil, true, 0)
+			lw.w.AppSend(s.sr, msgT("buffered 2"), nil, false, 0)
+			s.sr.Sock.Close(false)
+		}
 	case "appClose":
 		return func() { s.sr.Sock.Close(false) }
 	case "appCloseNow":
@@ -744,6 +760,26 @@ func (lw *lcWorld) handshake(st lcStep) {
 				}
 				s.addCause("drop")
 				Settle()
+			case "dropHeldInOnClose":
+				// the peer goes away and the session's close is half done (state closed, close event not yet
+				// emitted) while the handshake registers the session and looks at its state again
+				gpc := lw.arm("socket.OnClose.checked")
+				if s.wc != nil {
+					s.wc.Drop()
+				} else {
+					s.tc.Drop()
+				}
+				s.addCause("drop")
+				Settle()
+				if lw.parked(gpc) {
+					lw.stats["close-half-done-while-the-handshake-registers-the-session"] = true
+					lw.g.Release(gp)
+					Settle()
+					lw.g.Release(gpc)
+					Settle()
+				} else {
+					lw.disarm(gpc)
+				}
 			case "appCloseNow":
 				// nothing the application could do: it has not been handed the session yet
 			}
@@ -1140,10 +1176,24 @@ func runLC(steps []lcStep) (*lcWorld, bubbleResult) {
 					lw.f03("%s: %d events after the close event, first %v", what, len(s.sr.Events)-nEv, s.sr.Events[nEv])
 				}
 				// C04: a request naming the closed session is refused with 'Session ID unknown'
-				ex := Do(w.Srv, NewReq("GET", w.Path, "EIO=4&transport=polling&sid="+s.sid))
+				// (whatever enabled transport, method and body the request names it with: the session id is looked
+				// up before anything that depends on the kind of request)
+				probeT := []string{"polling", "websocket", "websocket", "polling"}[(len(s.sr.Events)+i)%4]
+				if !w.Srv.Opts().Transports().Has(probeT) {
+					// a transport the server does not serve is refused as such, before any session is looked up
+					probeT = "polling"
+				}
+				probeM := []string{"GET", "POST"}[(len(s.sr.Events)/4+i)%2]
+				spec := NewReq(probeM, w.Path, "EIO=4&transport="+probeT+"&sid="+s.sid)
+				if probeM == "POST" {
+					spec.Header.Set("Content-Type", "text/plain;charset=UTF-8")
+					spec.Body, spec.HasBody = []byte("4late"), true
+				}
+				ex := Do(w.Srv, spec)
 				Settle()
+				lw.stats["closed-session-named-with-transport-"+probeT] = true
 				if snap := ex.Snap(); snap.Status != 400 || !strings.Contains(string(snap.Body), `"code":1`) {
-					lw.f04("%s: request naming closed session %s answered %v, want 400 {code:1 Session ID unknown}", what, short(s.sid), snap)
+					lw.f04("%s: %s request naming closed session %s with transport=%s answered %v, want 400 {code:1 Session ID unknown}", what, probeM, short(s.sid), probeT, snap)
 				}
 			case "advance":
 				lw.advance(st.D)
@@ -1261,7 +1311,7 @@ func TestC03Lifecycle(t *testing.T) {
 			}
 		})
 	}
-	req := []string{"close-timeout-before-the-heartbeat", "server-write-fails-before-its-reader-notices", "peer-stops-reading", "upgrade-packet-inside-the-close-listener", "closed-inside-the-connection-listener", "session-closed-inside-Send", "carrier.polling", "carrier.websocket", "carrier.webtransport", "two-causes-same-instant", ">=2-causes-on-one-session", "activity-after-close", "stayed-open", "server-close"}
+	req := []string{"close-timeout-before-the-heartbeat", "server-write-fails-before-its-reader-notices", "peer-stops-reading", "upgrade-packet-inside-the-close-listener", "closed-inside-the-connection-listener", "session-closed-inside-Send", "carrier.polling", "carrier.websocket", "carrier.webtransport", "two-causes-same-instant", ">=2-causes-on-one-session", "activity-after-close", "stayed-open", "server-close", "close-with-buffered-data-and-a-client-that-keeps-reading"}
 	if !known[sigDoubleClose] {
 		req = append(req, "second-cause-inside-OnClose-window")
 	}
@@ -1269,7 +1319,7 @@ func TestC03Lifecycle(t *testing.T) {
 		req = append(req, "cause-inside-Close-window")
 	}
 	if !known[sigDiedInHS] {
-		req = append(req, "cause-during-handshake")
+		req = append(req, "cause-during-handshake", "close-half-done-while-the-handshake-registers-the-session")
 	}
 	col.RequireClasses(t, req...)
 }
@@ -1302,9 +1352,9 @@ func TestC04Registry(t *testing.T) {
 			}
 		})
 	}
-	req := []string{"server-close", "shutdown>=2-sessions", "activity-after-close", "table-consolidated-inside-delete-window", "table-consolidated-inside-lookup-window", "closed-inside-the-connection-listener", "server-write-fails-before-its-reader-notices", "peer-stops-reading"}
+	req := []string{"closed-session-named-with-transport-polling", "closed-session-named-with-transport-websocket", "server-close", "shutdown>=2-sessions", "activity-after-close", "table-consolidated-inside-delete-window", "table-consolidated-inside-lookup-window", "closed-inside-the-connection-listener", "server-write-fails-before-its-reader-notices", "peer-stops-reading"}
 	if !known[sigDiedInHS] {
-		req = append(req, "cause-during-handshake")
+		req = append(req, "cause-during-handshake", "close-half-done-while-the-handshake-registers-the-session")
 	}
 	col.RequireClasses(t, req...)
 }
